@@ -36,7 +36,7 @@ NTHREADS = 8
 
 def floors(tier):
     return {'thread_calls_judged': 600, 'thread_switches_in_library': 10000, 'len:switch_lines': 50, 'history_calls_judged': 800,
-            'hashseed_processes': 3, 'catalog_reuse_calls': 150, 'len:apis': 3}
+            'hashseed_processes': 3, 'catalog_reuse_calls': 150, 'len:apis': 3, 'cold_start_processes': 8, 'cold_thread_calls_judged': 300}
 
 
 # ---------------------------------------------------------------------------------------------------------------
@@ -80,6 +80,16 @@ def corpus(seed):
             toks = []
         ml, t = sqlgen.mutate(s0, toks, r, sqlgen.keyword_vocab(monitors.lexer_classes()['mindsdb']))
         out.append((f'parse-mut:{i}', 'parse', (t, 'mindsdb' if i % 4 else 'mysql')))
+    # stars with and without alias / column list, and plain stars around them
+    for i, s_ in enumerate(['SELECT * FROM t', 'SELECT * AS x FROM t', 'SELECT t.*, * FROM t', 'SELECT * y FROM t', 'SELECT count(*) FROM t',
+                            'SELECT * FROM (SELECT * FROM u) AS s (c1)', 'SELECT a, * FROM t WHERE b = 1', 'SELECT * FROM (SELECT * FROM u) AS s']):
+        out.append((f'parse-star:{i}', 'parse', (s_, 'mindsdb')))
+    # identifiers named like keywords of one dialect or the other (quoted in the input): how they are printed back
+    for i, s_ in enumerate(['select `status`, `view` from `tables` where `read` = 1', 'select t.`level` from `session` t order by t.`index`',
+                            'select `model`, `engine`, `job` from `databases`', 'select `select`, `from` from `where`', 'select `latest`, `horizon` from `predict`',
+                            'select `a b`, `view` as `status` from `t-1`.`tables`']):
+        for d in ('mysql', 'mindsdb'):
+            out.append((f'parse-kw:{i}:{d}', 'parse', (s_, d)))
     # plan: federated, model joins with versions (the shared-metadata stress), time series
     for i in range(25):
         text, _, _ = fedgen.fed_query(r, single=(i % 4 == 0))
@@ -431,6 +441,70 @@ def axis_history(ctx, items, gold, rounds):
             acc.fail({'axis': 'history', 'api': 'class-state', 'input_class': '-', 'differs': 'shared-class-state-changed'}, {'round': rnd})
 
 
+def cold_main(inp, out):
+    """Child process of the cold-start axis: nothing of the library beyond `import mindsdb_sql` has run when several threads
+    make the process's very first calls at once (lazy module-level initialisation, first-use imports).
+    `inp` holds the per-thread work lists [[cid, api, payload], ...]; writes [[cid, result], ...]."""
+    core.use_repo()
+    with open(inp) as f:
+        work = json.load(f)
+    n = len(work)
+    results = [[] for _ in range(n)]
+    start = threading.Barrier(n)
+    sys.setswitchinterval(1e-6)
+
+    def run(k):
+        start.wait()
+        for cid, api, payload in work[k]:
+            results[k].append([cid, call(api, tuple(payload) if isinstance(payload, list) else payload)])
+    ths = [threading.Thread(target=run, args=(k,)) for k in range(n)]
+    for t in ths:
+        t.start()
+    for t in ths:
+        t.join(timeout=120)
+    with open(out, 'w') as f:
+        json.dump([x for k in range(n) for x in results[k]], f)
+
+
+def axis_cold_threads(ctx, items, gold, rounds):
+    acc = ctx.acc
+    kw = [it for it in items if it[0].startswith('parse-kw')]
+    light = [it for it in items if it[0].startswith(('parse:', 'parse-c', 'parse-kw', 'parse-star', 'render:', 'plan-fed', 'plan-model:'))]
+    for rnd in range(rounds):
+        if ctx.out_of_time():
+            break
+        r = core.rng_for(ctx.seed, 'C20', 'cold', ctx.shard, rnd)
+        # every other round starts each thread on statements whose identifiers are named like keywords (what is printed for
+        # them depends on tables that are filled at first use)
+        work = [([kw[r.randrange(len(kw))] for _ in range(2)] if rnd % 2 == 0 else []) + [light[r.randrange(len(light))] for _ in range(5)]
+                for _ in range(NTHREADS)]
+        base = os.path.join(core.VERIF, '.work', f'c20-cold-{os.getpid()}-{rnd}')
+        os.makedirs(os.path.dirname(base), exist_ok=True)
+        with open(base + '.in', 'w') as f:
+            json.dump(work, f)
+        env = dict(os.environ, PYTHONHASHSEED='0', PYTHONPATH=core.VERIF, VERIF_REPO=core.REPO)
+        try:
+            p = subprocess.run([sys.executable, '-c', f"from vf.props import c20; c20.cold_main({base + '.in'!r}, {base + '.out'!r})"],
+                               cwd=core.VERIF, env=env, capture_output=True, text=True, timeout=300)
+            if p.returncode != 0 or not os.path.exists(base + '.out'):
+                acc.notes.append('cold-start process failed: ' + p.stderr[-200:])
+                continue
+            with open(base + '.out') as f:
+                res = json.load(f)
+        finally:
+            for ext in ('.in', '.out'):
+                if os.path.exists(base + ext):
+                    os.remove(base + ext)
+        acc.count('cold_start_processes')
+        for cid, got in res:
+            acc.ev()
+            acc.count('cold_thread_calls_judged')
+            acc.key(cid, 'cold-threads')
+            if got != gold[cid]:
+                acc.fail({'axis': 'threads-at-first-use', 'api': cid.split(':')[0].split('-')[0], 'input_class': cid.split(':')[0], 'differs': diff_kind(gold[cid], got)},
+                         {'input': cid, 'golden': gold[cid], 'observed': got, 'round': rnd})
+
+
 def axis_hashseed(ctx, gold, seeds):
     acc = ctx.acc
     for hs in seeds:
@@ -460,6 +534,7 @@ def run_shard(ctx):
         seeds = [[1], [2], [3], ['random']][ctx.shard] if quick else [[1, 5], [2, 6], [3, 7], ['random', 11]][ctx.shard]
         axis_hashseed(ctx, gold, seeds)
     axis_history(ctx, items, gold, rounds=4 if quick else 12)
+    axis_cold_threads(ctx, items, gold, rounds=4 if quick else 16)
     axis_threads(ctx, items, gold, rounds=4 if quick else 30)
     if ctx.shard == 0:
         acc.sample({'golden_examples': {k: gold[k] for k in list(gold)[:3]}})
